@@ -251,4 +251,290 @@ Proof.
       rewrite Prh. apply in_or_app. right. apply in_or_app. left. cbn; auto.
 Qed.
 
+(* ---- with a declared Content-Length ------------------------------------------- *)
+
+Hypothesis Hcap_cl : beqb (cap (lit "Content-Length")) (lit "Connection") = false.
+
+Lemma sr_headers_cl clname v cl post pre : forall t acc t' l,
+  Forall (not_cl lower) post -> beqb (lower clname) (lit "content-length") = true -> py_int v = Some cl ->
+  sr_headers lower t (pre ++ (PStr clname, PStr v) :: post) acc = (t', Ok l) -> t_clen t' = Some cl.
+Proof.
+  induction pre as [|[k w] pre IH]; intros t acc t' l Hpost Hn Hv H.
+  - cbn [List.app sr_headers] in H.
+    destruct (has_crlf v); [discriminate|]. destruct (has_crlf clname); [discriminate|].
+    rewrite Hn, Hv in H.
+    pose proof (sr_headers_no_cl lower post Hpost (set_clen (Some cl) t) (acc ++ [(clname, v)])) as F.
+    rewrite H in F. cbn [fst t_clen set_clen] in F. exact F.
+  - cbn [List.app sr_headers] in H.
+    destruct k as [k|]; [|discriminate]. destruct w as [w|]; [|discriminate].
+    destruct (has_crlf w); [discriminate|]. destruct (has_crlf k); [discriminate|].
+    destruct (beqb (lower k) (lit "content-length")).
+    + destruct (py_int w); [|discriminate]. eapply IH; eauto.
+    + destruct (existsb (beqb (lower k)) hop_by_hop); [discriminate|]. eapply IH; eauto.
+Qed.
+
+Lemma start_response_cl t clname v cl pre post status t' :
+  Forall (not_cl lower) post -> beqb (lower clname) (lit "content-length") = true -> py_int v = Some cl ->
+  start_response lower t (PStr status) (pre ++ (PStr clname, PStr v) :: post) None = (t', Ok tt) ->
+  t_clen t' = Some cl.
+Proof.
+  intros Hpost Hn Hv. unfold start_response.
+  destruct (t_complete t && true); [discriminate|].
+  destruct (has_crlf status); [discriminate|].
+  destruct (sr_headers lower _ _ []) as [t4 [l|e]] eqn:E; [|discriminate].
+  intro H. inversion H; subst. cbn [t_clen set_rh]. eapply sr_headers_cl; eauto.
+Qed.
+
+Definition cl_field_at (l1 : list (str * str)) (h : str * str) (l2 : list (str * str)) : Prop :=
+  plain_fields l1 /\ plain_fields l2 /\ norm_name cap (fst h) = lit "Content-Length".
+
+Lemma bh_fold_plain hb l : plain_fields l -> forall a,
+  ac_cl (fold_left (bh_step cap hb) l a) = ac_cl a
+  /\ ac_rh (fold_left (bh_step cap hb) l a) = ac_rh a ++ map (norm_field cap) l.
+Proof.
+  induction 1 as [|h l (H1 & H2 & _) Hl IH]; intro a; cbn [fold_left map].
+  - rewrite app_nil_r. auto.
+  - destruct (IH (bh_step cap hb a h)) as [E1 E2]. rewrite E1, E2.
+    unfold bh_step. cbn zeta in H2. rewrite H2. cbn [andb ac_cl ac_rh]. rewrite <- app_assoc. auto.
+Qed.
+
+Lemma bh_loop_cl t l1 h l2 : t_rh t = l1 ++ h :: l2 -> cl_field_at l1 h l2 -> has_body t = true ->
+  ac_rh (bh_loop cap t) = map (norm_field cap) (t_rh t) /\ ac_cl (bh_loop cap t) = Some (snd h).
+Proof.
+  intros Erh (P1 & P2 & Hn) Hb. unfold bh_loop. rewrite Erh, fold_left_app. cbn [fold_left].
+  destruct (bh_fold_plain (has_body t) l1 P1 (mkAcc [] None None None)) as [A1 A2].
+  set (a1 := fold_left (bh_step cap (has_body t)) l1 (mkAcc [] None None None)) in *. clearbody a1.
+  set (a2 := bh_step cap (has_body t) a1 h).
+  assert (B : ac_cl a2 = Some (snd h) /\ ac_rh a2 = ac_rh a1 ++ [norm_field cap h]).
+  { subst a2. unfold bh_step, norm_field. rewrite Hn, Hb. cbn. auto. }
+  destruct B as [B1 B2].
+  destruct (bh_fold_plain (has_body t) l2 P2 a2) as [C1 C2].
+  rewrite C1, C2, B1, B2, A2. cbn [ac_rh List.app]. rewrite map_app. cbn [map]. rewrite <- app_assoc. auto.
+Qed.
+
+Lemma noconn_cl l1 h l2 : cl_field_at l1 h l2 -> NoConn cap (map (norm_field cap) (l1 ++ h :: l2)).
+Proof.
+  intros (P1 & P2 & Hn). rewrite map_app. cbn [map]. apply Forall_app. split; [apply noconn_plain; auto|].
+  constructor; [|apply noconn_plain; auto]. unfold norm_field. cbn [fst]. rewrite Hn. exact Hcap_cl.
+Qed.
+
+Lemma prepared_len t1 l1 h l2 :
+  t_cof t1 = false -> t_wrote_header t1 = false -> t_chunked t1 = false ->
+  t_rh t1 = l1 ++ h :: l2 -> cl_field_at l1 h l2 -> has_body t1 = true -> snd h <> [] ->
+  let tp := bh_prepare cap lower c r t1 in
+  let '(add, cof, chk) := conn_table (t_v11 t1) (request_connection r) (r_connection_close r) true true in
+  exists tail, t_rh tp = map (norm_field cap) (t_rh t1) ++ add ++ tail /\ Forall tail_field tail
+               /\ t_cof tp = cof /\ t_chunked tp = chk /\ t_status tp = t_status t1 /\ t_v11 tp = t_v11 t1.
+Proof.
+  intros C W K Erh P Hb Hv. cbn zeta. unfold bh_prepare.
+  destruct (bh_loop_cl t1 l1 h l2 Erh P Hb) as [Eacc Ecl].
+  set (a := bh_loop cap t1) in *.
+  set (t0 := set_rh (ac_rh a) t1).
+  assert (Eclen : bh_clen a t0 = (Some (snd h), t0)).
+  { unfold bh_clen. rewrite Ecl. reflexivity. }
+  rewrite Eclen.
+  pose proof (bh_conn_table cap lower Hcap_te (request_connection r) (r_connection_close r) (Some (snd h)) t0) as T.
+  cbn zeta in T.
+  assert (Htr : truthy (Some (snd h)) = true) by (destruct (snd h); [congruence|reflexivity]).
+  rewrite Htr in T.
+  assert (Hb0 : has_body t0 = true) by exact Hb.
+  assert (Hv0 : t_v11 t0 = t_v11 t1) by reflexivity.
+  rewrite Hb0, Hv0 in T.
+  destruct (conn_table (t_v11 t1) (request_connection r) (r_connection_close r) true true) as [[add cof] chk].
+  destruct T as (T1 & T2 & T3 & T4 & _ & _ & _ & T8 & _); auto.
+  { subst t0. cbn [t_rh set_rh]. rewrite Eacc, Erh. apply noconn_cl. auto. }
+  destruct (bh_tail a (bh_conn cap lower (request_connection r) (r_connection_close r) (Some (snd h)) t0))
+    as (tail & E & F & A1 & A2 & A3 & A4).
+  exists tail. split; [rewrite E, T1; subst t0; cbn [t_rh set_rh]; rewrite Eacc, <- app_assoc; reflexivity|].
+  subst t0. cbn [t_status t_v11 set_rh] in T4, T8.
+  split; [exact F|]. split; [rewrite A3; exact T2|]. split; [rewrite A2; exact T3|].
+  split; [rewrite A1; exact T4|]. rewrite A4; exact T8.
+Qed.
+
+Lemma table_len_chk v11 conn fc : snd (conn_table v11 conn fc true true) = false.
+Proof. unfold conn_table. destruct v11; [|destruct (_ && _ && true)]; reflexivity. Qed.
+
+Lemma strs_of_app a b : strs_of (a ++ b) = strs_of a ++ strs_of b.
+Proof. unfold strs_of. apply map_app. Qed.
+
+(* C03_frame for plain applications that declare the exact Content-Length: the
+   client reads exactly that many bytes, they are the application's bytes,
+   nothing is left over; the connection is kept exactly when the head does not
+   say "Connection: close" (HTTP/1.1) / says "Keep-Alive" (HTTP/1.0). *)
+Theorem frame_len status pre clname v post kind chunks hc cl :
+  r_error r = None -> is_file kind = false ->
+  Forall (not_cl lower) pre -> Forall (not_cl lower) post ->
+  beqb (lower clname) (lit "content-length") = true -> py_int v = Some cl ->
+  all_digits v = true -> Z.of_N (dec_value v) = cl -> Z.of_nat (length (concat chunks)) = cl ->
+  plain_fields (strs_of pre) -> plain_fields (strs_of post) ->
+  norm_name cap clname = lit "Content-Length" ->
+  r_head r = false ->
+  startswith status (lit "1") || startswith status (lit "204") || startswith status (lit "304") = false ->
+  let hs := pre ++ (PStr clname, PStr v) :: post in
+  let res := channel_service cap lower c r (simple_app status hs kind chunks hc) None in
+  let keep := if beqb (r_version r) (lit "1.1")
+              then negb (beqb (request_connection r) (lit "close") || r_connection_close r)
+              else beqb (request_connection r) (lit "keep-alive") && negb (r_connection_close r) in
+  o_raw res = None ->
+  exists sl fields,
+    parse_one false (wire (o_writes res))
+    = Some (mkResponse sl fields (FLength (dec_value v)) (concat chunks), [])
+    /\ sl = lit "HTTP/" ++ (if beqb (r_version r) (lit "1.1") then lit "1.1" else lit "1.0") ++ [32] ++ status
+    /\ (forall h, In h (strs_of hs) -> In (client_field (norm_field cap h)) fields)
+    /\ o_next res = keep /\ o_close res = negb keep
+    /\ (keep = false -> In (client_field f_close) fields)
+    /\ (keep = true -> ~ In (client_field f_close) fields).
+Proof.
+  intros He Hfile Hpre Hpost Hn Hv Hdig Hdv Hlen Ppre Ppost Hnorm Hhead Hst. cbn zeta. intro Hraw.
+  set (hs := pre ++ (PStr clname, PStr v) :: post) in *.
+  (* ---- the run ---- *)
+  revert Hraw. unfold channel_service. rewrite He. cbn [connected].
+  set (t0 := new_task (r_version r) false).
+  match goal with |- context [ladder cap lower c r None ?x0 ?raw0] =>
+    destruct (ladder_fields cap lower c r None x0 raw0) as (_ & _ & _ & Eraw & _) end.
+  cbn zeta in Eraw. rewrite Eraw. clear Eraw.
+  unfold task_service.
+  destruct (x_out (task_run cap lower c r None (t0, mkChan [] 0) (inl (simple_app status hs kind chunks hc)))) as [[]|e] eqn:Eraw;
+    [|intro X; discriminate X].
+  intros _. unfold ladder. rewrite Eraw. cbn [o_writes o_close o_next o_escaped fst snd].
+  revert Eraw. unfold task_run, wsgi_execute, simple_app. cbn [a_call a_kind a_steps a_has_close a_close_exn].
+  rewrite run_actions_single. cbn [run_action fst snd].
+  destruct (start_response lower t0 (PStr status) hs None) as [t1 [[]|e1]] eqn:Esr; cbn [fst snd];
+    [|cbn; intro X; discriminate X].
+  destruct (start_response_ok lower _ _ _ _ _ Esr) as (_ & S2 & S3 & Hc1 & S5 & S6 & S7 & S8 & S9 & _).
+  cbn [new_task t_rh t_wrote_header t_cof t_chunked t_cbw t_v11 str_of List.app t0] in *.
+  pose proof (start_response_cl t0 clname v cl pre post status t1 Hpost Hn Hv Esr) as Hcl1.
+  assert (Hclean1 : task_clean t1).
+  { pose proof (start_response_clean lower t0 (PStr status) hs None) as G.
+    rewrite Esr in G. cbn [fst] in G. apply G. split; [reflexivity|constructor]. }
+  assert (Hb1 : has_body t1 = true) by (unfold has_body; rewrite S2, Hst; reflexivity).
+  (* ---- the prepared task ---- *)
+  assert (Erh1 : t_rh t1 = strs_of pre ++ (clname, v) :: strs_of post).
+  { rewrite S3. subst hs. rewrite strs_of_app. reflexivity. }
+  assert (Hvne : snd (clname, v) <> []).
+  { cbn [snd]. unfold all_digits in Hdig. destruct v; [discriminate|discriminate]. }
+  pose proof (prepared_len t1 (strs_of pre) (clname, v) (strs_of post) S6 S5 S7 Erh1
+                (conj Ppre (conj Ppost Hnorm)) Hb1 Hvne) as P.
+  cbn zeta in P. rewrite S9 in P.
+  pose proof (table_len_chk (beqb (r_version r) (lit "1.1")) (request_connection r) (r_connection_close r)) as Hchk.
+  destruct (conn_table (beqb (r_version r) (lit "1.1")) (request_connection r) (r_connection_close r) true true)
+    as [[add cof] chk] eqn:Etab. cbn [snd] in Hchk. subst chk.
+  destruct P as (tail & Prh & Ptail & Pcof & Pchk & Pst & Pv).
+  (* ---- the iteration ---- *)
+  unfold execute_body. cbn [a_kind a_steps].
+  replace (match kind with KFile seekable => _ | _ => None end) with (@None (st * outcome unit * bool))
+    by (destruct kind; auto; discriminate).
+  replace (match kind with KFile _ => true | _ => false end) with false by (destruct kind; auto; discriminate).
+  destruct (iterate cap lower c r None false (match kind with KSized n => n =? 1 | _ => false end) true
+                    (t1, mkChan [] 0) (plain_steps chunks)) as [[t2 ch2] [[]|e2]] eqn:Eit.
+  2: { destruct (true && hc); cbn; intro X; discriminate X. }
+  assert (Etp0 : forall tp head, build_response_header cap lower c r t1 = (tp, Ok head) ->
+                 tp = bh_prepare cap lower c r t1 /\ head = head_text tp).
+  { intros tp head Eb. unfold build_response_header in Eb. injection Eb as E1 E2.
+    apply encode_latin1_ok in E2. subst. auto. }
+  assert (Hfit : (Z.of_nat (length (concat chunks)) <= cl)%Z) by lia.
+  assert (Hafter : forall n : nat,
+     x_out (if true && hc then mkExec (t2, ch2) (Ok tt) n false true
+            else mkExec (t2, ch2) (Ok tt) 0 (negb true) true) = Ok tt
+     /\ x_st (if true && hc then mkExec (t2, ch2) (Ok tt) n false true
+            else mkExec (t2, ch2) (Ok tt) 0 (negb true) true) = (t2, ch2))
+    by (intros; destruct (true && hc); auto).
+  destruct (Hafter 1%nat) as [Ho Hst2]. rewrite Ho, Hst2. clear Hafter Ho Hst2.
+  (* ---- the client, for whatever head the prepared task serialises to ---- *)
+  set (keep := if beqb (r_version r) (lit "1.1")
+               then negb (beqb (request_connection r) (lit "close") || r_connection_close r)
+               else beqb (request_connection r) (lit "keep-alive") && negb (r_connection_close r)).
+  assert (Hcof : cof = negb keep).
+  { subst keep. unfold conn_table in Etab. destruct (beqb (r_version r) (lit "1.1")).
+    - injection Etab as _ <-. rewrite negb_involutive. reflexivity.
+    - rewrite andb_true_r in Etab. destruct (_ && _); injection Etab as _ <-; reflexivity. }
+  assert (Hclient : forall tp head, build_response_header cap lower c r t1 = (tp, Ok head) ->
+     t_cof tp = negb keep /\ t_chunked tp = false /\
+     exists sl fields,
+       parse_one false (head ++ concat chunks) = Some (mkResponse sl fields (FLength (dec_value v)) (concat chunks), [])
+       /\ sl = lit "HTTP/" ++ (if beqb (r_version r) (lit "1.1") then lit "1.1" else lit "1.0") ++ [32] ++ status
+       /\ (forall h, In h (strs_of hs) -> In (client_field (norm_field cap h)) fields)
+       /\ (keep = false -> In (client_field f_close) fields)
+       /\ (keep = true -> ~ In (client_field f_close) fields)).
+  { intros tp head Eb. destruct (Etp0 tp head Eb) as [Etp ->]. rewrite <- Etp in Prh, Pcof, Pchk, Pst, Pv.
+    split; [congruence|]. split; [exact Pchk|].
+    assert (Hcleanp : task_clean tp) by (subst tp; apply bh_prepare_clean; auto).
+    assert (Hbp : has_body tp = true) by (unfold has_body; rewrite Pst, S2, Hst; reflexivity).
+    assert (Hadd : add = (if keep then (if beqb (r_version r) (lit "1.1") then [] else [f_keep]) else [f_close])).
+    { subst keep. unfold conn_table in Etab. destruct (beqb (r_version r) (lit "1.1")).
+      - injection Etab as <- _. destruct (_ || _); reflexivity.
+      - rewrite andb_true_r in Etab. destruct (_ && _); injection Etab as <- _; reflexivity. }
+    assert (Hnc : Forall (fun h => no_colon (fst h)) (t_rh tp)).
+    { rewrite Prh, Erh1, map_app. cbn [map]. apply Forall_app. split.
+      - apply Forall_app. split; [apply plain_no_colon; auto|]. constructor; [|apply plain_no_colon; auto].
+        unfold norm_field. cbn [fst]. rewrite Hnorm. reflexivity.
+      - apply Forall_app. split; [|apply tail_no_colon; auto].
+        rewrite Hadd. destruct keep; [destruct (beqb (r_version r) _)|]; repeat constructor. }
+    assert (Hadd_te : filter (field_is te_name) (map client_field add) = []).
+    { rewrite Hadd. destruct keep; [destruct (beqb (r_version r) _)|]; reflexivity. }
+    assert (Hadd_cl : filter (field_is cl_name) (map client_field add) = []).
+    { rewrite Hadd. destruct keep; [destruct (beqb (r_version r) _)|]; reflexivity. }
+    assert (Hte : te_fields tp = []).
+    { unfold te_fields. rewrite Prh, Erh1, !map_app. cbn [map]. rewrite !filter_app. cbn [filter].
+      rewrite (plain_not_named _ te_name (or_introl eq_refl) Ppre), (plain_not_named _ te_name (or_introl eq_refl) Ppost).
+      rewrite Hadd_te, (tail_not_named tail te_name eq_refl eq_refl eq_refl Ptail).
+      unfold field_is, client_field, norm_field. cbn [fst]. rewrite Hnorm. reflexivity. }
+    assert (Hcf : cl_fields tp = [(lit "Content-Length", v)]).
+    { unfold cl_fields. rewrite Prh, Erh1, !map_app. cbn [map]. rewrite !filter_app. cbn [filter].
+      rewrite (plain_not_named _ cl_name (or_intror eq_refl) Ppre), (plain_not_named _ cl_name (or_intror eq_refl) Ppost).
+      rewrite Hadd_cl, (tail_not_named tail cl_name eq_refl eq_refl eq_refl Ptail).
+      unfold field_is, client_field, norm_field. cbn [fst snd]. rewrite Hnorm. cbn [List.app].
+      rewrite (strip_digits v Hdig). reflexivity. }
+    assert (Hbl : lenN (concat chunks) = dec_value v).
+    { unfold lenN. apply N2Z.inj. rewrite Hdv, <- Hlen. rewrite nat_N_Z. reflexivity. }
+    pose proof (parse_length tp v (concat chunks) [] Hcleanp Hnc Hbp Hte Hcf Hdig Hbl) as PL.
+    rewrite app_nil_r in PL.
+    eexists _, _. split; [exact PL|]. split.
+    { unfold first_line, version_str. rewrite Pv, Pst, S2. reflexivity. }
+    split; [|split].
+    - intros h Hh. apply in_map. eapply Permutation_in; [apply Permutation_sym, sort_perm|].
+      rewrite Prh. apply in_or_app. left. apply in_map. rewrite S3. exact Hh.
+    - intro Hk. apply in_map. eapply Permutation_in; [apply Permutation_sym, sort_perm|].
+      rewrite Prh. apply in_or_app. right. apply in_or_app. left. rewrite Hadd, Hk. left. reflexivity.
+    - intros Hk Hin. apply in_map_iff in Hin as (h & Eh & Hh).
+      apply (Permutation_in _ (sort_perm _)) in Hh. rewrite Prh in Hh.
+      assert (Hcc : beqb (cap (fst h)) (lit "Connection") = true).
+      { unfold client_field, f_close in Eh. injection Eh as E1 _. rewrite E1. rewrite Hcap_conn. reflexivity. }
+      apply in_app_or in Hh as [Hh|Hh].
+      + pose proof (noconn_cl (strs_of pre) (clname, v) (strs_of post) (conj Ppre (conj Ppost Hnorm))) as NC.
+        rewrite <- Erh1 in NC. unfold NoConn in NC. rewrite Forall_forall in NC. rewrite (NC h Hh) in Hcc. discriminate.
+      + apply in_app_or in Hh as [Hh|Hh].
+        * rewrite Hadd, Hk in Hh. destruct (beqb (r_version r) _); [destruct Hh|].
+          destruct Hh as [<-|[]]. unfold client_field, f_keep, f_close in Eh. discriminate.
+        * rewrite Forall_forall in Ptail. destruct (Ptail h Hh) as [E|[E|E]];
+            unfold client_field, f_close in Eh; injection Eh as E1 _; rewrite E in E1; discriminate. }
+  (* ---- the two ways the head goes out ---- *)
+  destruct (iterate_fresh_len cap lower c r _ chunks t1 (mkChan [] 0) true cl _ _ Hc1 S5 Hcl1 S8) with (3 := Eit)
+    as [[Hall Hs]|(tp & head & Eb & S2' & B2 & W2)]; auto.
+  { rewrite Pchk. reflexivity. }
+  - (* every chunk empty (so cl = 0): finish() sends the head *)
+    inversion Hs; subst t2 ch2.
+    assert (Hcl0 : cl = 0%Z) by (rewrite (all_empty_concat chunks Hall) in Hlen; cbn in Hlen; lia).
+    rewrite Hcl1, S8, Hcl0. cbn [Z.eqb negb andb].
+    destruct (task_finish cap lower c r None (t1, mkChan [] 0)) as [s3 [[]|e3]] eqn:Ef; cbn [x_out x_st];
+      [|intro X; discriminate X].
+    intros _. destruct (finish_fresh cap lower c r t1 (mkChan [] 0) s3 (Ok tt) Hc1 S5 Ef eq_refl) as (tp & head & Eb & Ht & W).
+    destruct (Hclient tp head Eb) as (Ec & Ek & sl & fields & PL & Esl & Hin & Hk1 & Hk2).
+    fold (chan_wire (snd s3)). rewrite W, Ht, Ek. cbn [chan_wire ch_writes rev wire flat_map List.app t_cof set_wrote].
+    rewrite app_nil_r. rewrite (all_empty_concat chunks Hall), app_nil_r in PL.
+    exists sl, fields. rewrite PL, (all_empty_concat chunks Hall), Ec, negb_involutive. repeat split; auto.
+  - (* the head went out with the first non-empty chunk *)
+    cbn [fst snd] in S2', B2, W2. destruct S2' as (A1 & A2 & A3 & A4 & A5 & A6 & A7 & A8).
+    destruct (Hclient tp head Eb) as (Ec & Ek & sl & fields & PL & Esl & Hin & Hk1 & Hk2).
+    assert (Hcl2 : t_clen t2 = Some cl).
+    { rewrite A6. cbn [t_clen set_wrote]. destruct (Etp0 tp head Eb) as [-> _].
+      destruct (keeps_bh_prepare cap lower c r t1) as (_ & _ & K3 & _). congruence. }
+    rewrite Hcl2, B2, Hlen, Z.eqb_refl. cbn [negb andb].
+    assert (Hw2 : t_wrote_header t2 = true) by (rewrite A4; reflexivity).
+    destruct (finish_after_head cap lower c r t2 ch2 Hw2) as (ch3 & Ef & W3). rewrite Ef. cbn [x_out x_st fst snd].
+    intros _. fold (chan_wire ch3). rewrite W3, W2, A2, A3. cbn [t_chunked t_cof set_wrote]. rewrite Ek, app_nil_r.
+    cbn [chan_wire ch_writes rev wire flat_map List.app].
+    exists sl, fields. rewrite PL, Ec, negb_involutive. repeat split; auto.
+Qed.
+
 End End2End.
